@@ -3,8 +3,13 @@ must pass.  Not a registered check (it edits nothing under /repo: each patch is 
 under /tmp and removed afterwards; the checks run in a scratch worktree of /verif so that evidence and generated tables
 of /verif are left alone).
 
-usage: selftest.py [--verif-wt DIR] [--only ID ...] [--kind seeded|harmless|all] [--jobs N]
+usage: selftest.py [--verif-wt DIR] [--only ID ...] [--kind seeded|harmless|edits|all] [--jobs N]
 writes notes/selftest_result.json (one row per patch) and prints a summary.
+
+kind `edits` (constant_edits/<id>/patch.diff + meta.json): a one-character edit of a table / constant / regex of /repo.
+meta.json names the properties that must report it (`reported_by`: exit 1 with a VIOLATION line — a failing input, or
+`no-failing-input-found` with the broken theorem in the replay) and properties that do not import the table and must
+stay quiet (`quiet_for`: exit 0); one row per (edit, property).
 """
 import argparse
 import concurrent.futures
@@ -22,16 +27,19 @@ def sh(cmd, **kw):
     return subprocess.run(cmd, shell=True, capture_output=True, text=True, **kw)
 
 
-def one(kind, sid, vwt, slot):
-    d = os.path.join(VERIF, kind, sid)
+def one(kind, sid, vwt, slot, prop=None, expect=None):
+    d = os.path.join(VERIF, "constant_edits" if kind == "edits" else kind, sid)
     patch = os.path.join(d, "patch.diff")
-    prop = sid[:3]
+    prop = prop or sid[:3]
     if kind == "seeded":
         try:
             prop = json.load(open(os.path.join(d, "meta.json"))).get("property", prop)
         except Exception:  # noqa: BLE001
             pass
-    wt = f"/tmp/selftest-repo-{slot}"
+    # unique per run: two selftest runs at the same time must not share (and remove!) each other's scratch trees — a check
+    # whose tree vanished imported /repo instead (the editable install is last on sys.path) and ended with the
+    # "imported from /repo, expected …" assertion of props.common
+    wt = os.environ.get("SELFTEST_REPO_PREFIX", f"/tmp/selftest-repo-{os.getpid()}-") + str(slot)
     sh(f"git -C /repo worktree remove --force {wt}")
     r = sh(f"git -C /repo worktree add -q --detach {wt} HEAD && git -C {wt} apply {patch}")
     if r.returncode != 0:
@@ -45,7 +53,16 @@ def one(kind, sid, vwt, slot):
     vio = [l for l in lines if l.startswith("VIOLATION")]
     row = {"id": sid, "kind": kind, "property": prop, "exit": p.returncode, "wall_s": wall,
            "line": (lines[0][:200] if lines else "")}
-    if kind == "seeded":
+    if kind == "edits":
+        row["id"] = f"{sid}@{prop}"
+        row["expect"] = expect
+        if expect == "report":
+            row["result"] = "caught" if (p.returncode == 1 and vio) else "MISSED"
+            if vio and vio[0].rstrip().endswith("no-failing-input-found"):
+                row["result"] = "caught-without-input"
+        else:
+            row["result"] = "quiet" if p.returncode == 0 and not lines else "FALSE-ALARM"
+    elif kind == "seeded":
         row["result"] = "caught" if (p.returncode == 1 and vio) else "MISSED"
         if vio and vio[0].rstrip().endswith("no-failing-input-found"):
             row["result"] = "caught-without-input"
@@ -63,6 +80,19 @@ def main():
     ap.add_argument("--jobs", type=int, default=1)
     a = ap.parse_args()
     todo = []
+    if a.kind in ("all", "edits"):
+        base = os.path.join(VERIF, "constant_edits")
+        for sid in sorted(os.listdir(base)) if os.path.isdir(base) else []:
+            if a.only and sid not in a.only:
+                continue
+            try:
+                meta = json.load(open(os.path.join(base, sid, "meta.json")))
+            except Exception:  # noqa: BLE001
+                continue
+            for prop in meta.get("reported_by", []):
+                todo.append(("edits", sid, prop, "report"))
+            for prop in meta.get("quiet_for", []):
+                todo.append(("edits", sid, prop, "quiet"))
     for kind in ("seeded", "harmless"):
         if a.kind not in ("all", kind):
             continue
@@ -83,9 +113,9 @@ def main():
 
     def run_slot(k):
         out = []
-        for n, (kind, sid) in enumerate(todo):
+        for n, item in enumerate(todo):
             if n % a.jobs == k:
-                r = one(kind, sid, wts[k], k)
+                r = one(item[0], item[1], wts[k], k, *item[2:])
                 print(json.dumps(r), flush=True)
                 out.append(r)
         return out
